@@ -146,13 +146,16 @@ type c34Stash struct {
 	base    c34Root
 	toStage []string
 	both    bool // pushed while some table had staged and unstaged changes
+	head    int  // commit the branch was on when the stash was pushed (dolt_stashes.hash)
+	id      int  // push number within the case (identity for messages)
 }
 
 type c34Model struct {
 	commits []*c34Commit
 	br      map[string]*c34Branch
 	cur     string
-	stashes map[string][]c34Stash // [0] is the top of the stack
+	stashes map[string][]c34Stash // [0] is stash@{0}, the newest entry
+	pushes  int
 	fresh   int
 }
 
@@ -167,7 +170,7 @@ func (m *c34Model) other() string {
 }
 
 func (m *c34Model) clone() *c34Model {
-	c := &c34Model{commits: append([]*c34Commit(nil), m.commits...), br: map[string]*c34Branch{}, cur: m.cur, stashes: map[string][]c34Stash{}, fresh: m.fresh}
+	c := &c34Model{commits: append([]*c34Commit(nil), m.commits...), br: map[string]*c34Branch{}, cur: m.cur, stashes: map[string][]c34Stash{}, fresh: m.fresh, pushes: m.pushes}
 	for k, b := range m.br {
 		c.br[k] = &c34Branch{head: b.head, staged: b.staged.clone(), working: b.working.clone()}
 	}
@@ -338,7 +341,8 @@ func (m *c34Model) stashPush(name string, untracked bool) (fail bool, deviant *c
 		b.staged = b.working.clone()
 		stashed = b.working.names()
 	}
-	m.stashes[name] = append([]c34Stash{{root: b.staged.clone(), base: h.clone(), toStage: toStage}}, m.stashes[name]...)
+	m.pushes++
+	m.stashes[name] = append([]c34Stash{{root: b.staged.clone(), base: h.clone(), toStage: toStage, head: b.head, id: m.pushes}}, m.stashes[name]...)
 	b.staged = h.clone()
 	for _, t := range stashed {
 		b.working.set(t, h[t])
@@ -354,13 +358,20 @@ func (m *c34Model) stashPush(name string, untracked bool) (fail bool, deviant *c
 	return false, deviant
 }
 
-// stashPop returns fail / uncertain. On uncertain the model is left untouched.
-func (m *c34Model) stashPop(name string) (fail, uncertain bool) {
+// c34Without returns the list without entry idx.
+func c34Without(st []c34Stash, idx int) []c34Stash {
+	out := append([]c34Stash(nil), st[:idx]...)
+	return append(out, st[idx+1:]...)
+}
+
+// stashPop applies entry stash@{idx} of list name. It returns fail / uncertain. On uncertain the
+// model is left untouched.
+func (m *c34Model) stashPop(name string, idx int) (fail, uncertain bool) {
 	st := m.stashes[name]
-	if len(st) == 0 {
+	if idx >= len(st) {
 		return true, false
 	}
-	e := st[0]
+	e := st[idx]
 	b := m.b()
 	merged := c34Root{}
 	for _, t := range c34Union(b.working, e.root, e.base) {
@@ -392,18 +403,20 @@ func (m *c34Model) stashPop(name string) (fail, uncertain bool) {
 	for _, t := range e.toStage {
 		b.staged.set(t, merged[t])
 	}
-	m.stashes[name] = st[1:]
+	m.stashes[name] = c34Without(st, idx)
 	return false, false
 }
 
-func (m *c34Model) stashDrop(name string) (fail bool) {
+func (m *c34Model) stashDrop(name string, idx int) (fail bool) {
 	st := m.stashes[name]
-	if len(st) == 0 {
+	if idx >= len(st) {
 		return true
 	}
-	m.stashes[name] = st[1:]
+	m.stashes[name] = c34Without(st, idx)
 	return false
 }
+
+func (m *c34Model) stashClear(name string) { delete(m.stashes, name) }
 
 func c34ToV(t *c34Tab) *vsql.Table {
 	v := vsql.NewTable(t.cols, 1)
@@ -514,7 +527,7 @@ type c34Obs struct {
 	heads   map[string]string             // branch -> commit hash
 	roots   map[string]map[string]c34Root // branch -> HEAD|STAGED|WORKING -> tables
 	active  string
-	stashes map[string]int
+	stashes map[string][]string // name -> "stash_id hash" in stash_id order
 }
 
 var c34RootNames = []string{"HEAD", "STAGED", "WORKING"}
@@ -536,7 +549,7 @@ type c34Case struct {
 }
 
 func (c *c34Case) observe() *c34Obs {
-	o := &c34Obs{heads: map[string]string{}, roots: map[string]map[string]c34Root{}, stashes: map[string]int{}}
+	o := &c34Obs{heads: map[string]string{}, roots: map[string]map[string]c34Root{}, stashes: map[string][]string{}}
 	r := c.obs["main"].MustQuery(c.rt, "SELECT name, hash FROM dolt_branches ORDER BY name")
 	for _, row := range r.Data {
 		o.heads[row[0]] = row[1]
@@ -566,9 +579,12 @@ func (c *c34Case) observe() *c34Obs {
 	if a, ok := c.act.Scalar(c.rt, "SELECT active_branch()"); ok {
 		o.active = a
 	}
-	sr := c.obs["main"].MustQuery(c.rt, "SELECT name, stash_id FROM dolt_stashes")
+	sr := c.obs["main"].MustQuery(c.rt, "SELECT name, stash_id, hash FROM dolt_stashes")
 	for _, row := range sr.Data {
-		o.stashes[row[0]]++
+		o.stashes[row[0]] = append(o.stashes[row[0]], row[1]+" "+row[2])
+	}
+	for _, l := range o.stashes {
+		sort.Slice(l, func(i, j int) bool { return c34StashIdx(l[i]) < c34StashIdx(l[j]) })
 	}
 	return o
 }
@@ -604,11 +620,31 @@ func (c *c34Case) diff(o *c34Obs, m *c34Model) []string {
 		}
 	}
 	for _, n := range []string{"s1", "s2"} {
-		if o.stashes[n] != len(m.stashes[n]) {
-			out = append(out, fmt.Sprintf("stash %s has %d entries, model %d", n, o.stashes[n], len(m.stashes[n])))
+		var want []string
+		for i, e := range m.stashes[n] {
+			want = append(want, fmt.Sprintf("stash@{%d} %s", i, m.commits[e.head].hash))
+		}
+		if strings.Join(o.stashes[n], ",") != strings.Join(want, ",") {
+			var ids []string
+			for _, e := range m.stashes[n] {
+				ids = append(ids, fmt.Sprintf("push#%d", e.id))
+			}
+			out = append(out, fmt.Sprintf("dolt_stashes for %s: dolt %v ; model %v (entries %v)", n, o.stashes[n], want, ids))
+		}
+	}
+	for n := range o.stashes {
+		if n != "s1" && n != "s2" {
+			out = append(out, "dolt_stashes lists an unknown stash name "+n)
 		}
 	}
 	return out
+}
+
+// c34StashIdx extracts k from "stash@{k} hash".
+func c34StashIdx(s string) int {
+	var k int
+	fmt.Sscanf(s, "stash@{%d}", &k)
+	return k
 }
 
 func c34Show(t *c34Tab) string {
@@ -814,8 +850,15 @@ func c34Run(rt *rapid.T, env *c34Env, rec *vh.Recorder, known map[string]int) {
 			}
 			c.vc(label, fmt.Sprintf("CALL dolt_commit('%s','%s')", flag, label), fail, nil, known, "")
 		case "stash_push":
-			name := rapid.SampledFrom([]string{"s1", "s1", "s2"}).Draw(rt, label+".name")
+			name := rapid.SampledFrom([]string{"s1", "s1", "s1", "s2"}).Draw(rt, label+".name")
+			if c.m.pushes >= 9 {
+				continue // see assumptions: stash keys are decimal strings, lists stay below 10 keys
+			}
 			u := rapid.IntRange(0, 3).Draw(rt, label+".untracked") == 0
+			if st0, un0 := c.m.dirty(); len(st0)+len(un0) == 0 && len(c.m.b().staged) > 0 && rapid.IntRange(0, 4).Draw(rt, label+".change_first") > 0 {
+				// clean working set: change a tracked table first, so that lists grow beyond one entry
+				c.dmlInsert(rapid.SampledFrom(c.m.b().staged.names()).Draw(rt, label+".change_t"), rapid.IntRange(1, 4).Draw(rt, label+".change_pk"))
+			}
 			st, un := c.m.dirty()
 			both := len(c34Intersect(st, un)) > 0
 			fail, dev := c.m.stashPush(name, u)
@@ -852,11 +895,15 @@ func c34Run(rt *rapid.T, env *c34Env, rec *vh.Recorder, known map[string]int) {
 				name, forcePop = forcePop, ""
 			}
 			pre := c.m.clone()
-			wasBoth := len(pre.stashes[name]) > 0 && pre.stashes[name][0].both
-			fail, uncertain := c.m.stashPop(name)
-			q := fmt.Sprintf("CALL dolt_stash('pop','%s')", name)
+			idx, arg := c.stashIndex(label, name)
+			wasBoth := len(pre.stashes[name]) > idx && pre.stashes[name][idx].both
+			fail, uncertain := c.m.stashPop(name, idx)
+			q := fmt.Sprintf("CALL dolt_stash('pop','%s'%s)", name, arg)
+			if idx > 0 && !fail {
+				classes["stash_pop_not_top"] = true
+			}
 			if uncertain {
-				c.uncertain(label, q, pre, name)
+				c.uncertain(label, q, pre, name, idx)
 				classes["pop_uncertain"] = true
 			} else {
 				c.vc(label, q, fail, nil, known, "")
@@ -871,9 +918,23 @@ func c34Run(rt *rapid.T, env *c34Env, rec *vh.Recorder, known map[string]int) {
 				}
 			}
 		case "stash_drop":
+			name := rapid.SampledFrom([]string{"s1", "s1", "s2"}).Draw(rt, label+".name")
+			idx, arg := c.stashIndex(label, name)
+			fail := c.m.stashDrop(name, idx)
+			c.vc(label, fmt.Sprintf("CALL dolt_stash('drop','%s'%s)", name, arg), fail, nil, known, "")
+			if !fail {
+				classes["stash_drop"] = true
+				if idx > 0 {
+					classes["stash_drop_not_top"] = true
+				}
+			}
+		case "stash_clear":
 			name := rapid.SampledFrom([]string{"s1", "s2"}).Draw(rt, label+".name")
-			fail := c.m.stashDrop(name)
-			c.vc(label, fmt.Sprintf("CALL dolt_stash('drop','%s')", name), fail, nil, known, "")
+			if len(c.m.stashes[name]) > 0 {
+				classes["stash_clear"] = true
+			}
+			c.m.stashClear(name)
+			c.vc(label, fmt.Sprintf("CALL dolt_stash('clear','%s')", name), false, nil, known, "")
 		case "checkout":
 			dst := c.m.other()
 			if rapid.IntRange(0, 5).Draw(rt, label+".same") == 0 {
@@ -956,9 +1017,16 @@ func (c *c34Case) kinds() []string {
 	default:
 		ks = rep(ks, "stash_push", 1)
 	}
-	if len(c.m.stashes["s1"])+len(c.m.stashes["s2"]) > 0 {
+	if n := len(c.m.stashes["s1"]) + len(c.m.stashes["s2"]); n > 0 {
 		ks = rep(ks, "stash_pop", 6)
-		ks = rep(ks, "stash_drop", 1)
+		ks = rep(ks, "stash_drop", 2)
+		ks = rep(ks, "stash_clear", 1)
+		if len(c.m.stashes["s1"]) > 1 || len(c.m.stashes["s2"]) > 1 {
+			ks = rep(ks, "stash_drop", 3)
+		}
+		if n < 3 {
+			ks = rep(ks, "stash_push", 4) // grow the lists
+		}
 	} else {
 		ks = rep(ks, "stash_pop", 1)
 	}
@@ -1015,7 +1083,7 @@ func (c *c34Case) vc(label, q string, wantFail bool, deviant *c34Model, known ma
 // uncertain runs a call whose success the model does not predict: it must be atomic — on
 // error nothing may have changed; on success the model is re-read from dolt (heads and other
 // branch still compared).
-func (c *c34Case) uncertain(label, q string, pre *c34Model, popName string) {
+func (c *c34Case) uncertain(label, q string, pre *c34Model, popName string, popIdx ...int) {
 	err := c.act.Exec(q)
 	o := c.observe()
 	if err != nil {
@@ -1029,7 +1097,11 @@ func (c *c34Case) uncertain(label, q string, pre *c34Model, popName string) {
 	c.log = append(c.log, q+" -> ok (not predicted)")
 	c.m = pre
 	if popName != "" {
-		c.m.stashes[popName] = c.m.stashes[popName][1:]
+		idx := 0
+		if len(popIdx) > 0 {
+			idx = popIdx[0]
+		}
+		c.m.stashes[popName] = c34Without(c.m.stashes[popName], idx)
 		c.adopt(o, c.m.cur)
 	} else {
 		c.adopt(o, "main", "b1")
